@@ -44,8 +44,11 @@ def tables(ctx: Ctx):
     out["autoware/merge=False"] = ("AutowareLabel", extract_table(ix, rs, aw, {pa[0]: const(False)}), aw)
     out["autoware/merge=True"] = ("AutowareLabel", extract_table(ix, rs, aw, {pa[0]: const(True)}), aw)
     task = ctx.index.cls("common.evaluation_task.EvaluationTask")
-    for m, _ in enum_members(task):
+    for m, v in enum_members(task):
         out[f"traffic_light/task={m}"] = ("TrafficLightLabel", extract_table(ix, rs, tl, {pt[0]: member("EvaluationTask", m)}), tl)
+        # LabelConverter accepts the task as str or enum and may hand either spelling on
+        if isinstance(v, str):
+            out[f"traffic_light/task={v!r}"] = ("TrafficLightLabel", extract_table(ix, rs, tl, {pt[0]: const(v)}), tl)
     return out
 
 
@@ -62,7 +65,7 @@ def rule_tables(ctx: Ctx) -> None:
         total_rows += len(rows)
         members = enums[ecls]
         names = {}
-        refkey = tname if tname.startswith("autoware") else ("traffic_light/classification" if tname.endswith("CLASSIFICATION2D") else "traffic_light/other")
+        refkey = tname if tname.startswith("autoware") else ("traffic_light/classification" if tname.endswith(("CLASSIFICATION2D", "'classification2d'")) else "traffic_light/other")
         reft = ref.get(refkey, {})
         for cls, mem, name, line in rows:
             node = type("N", (), {"lineno": line})()
@@ -114,6 +117,18 @@ def rule_tables(ctx: Ctx) -> None:
         ctx.check(me[n] == want, "C14-merge", fi.name, n,
                   f"with merging {n!r} -> {me[n]}, but merging the unmerged result {un[n]} gives {want}",
                   fi=fi, expected=want, found=me[n], sample={"name": n, "unmerged": un[n], "merged": me[n]})
+    # both spellings of the task select the same table
+    task = ctx.index.cls("common.evaluation_task.EvaluationTask")
+    for m, v in enum_members(task):
+        a = tabs.get(f"traffic_light/task={m}")
+        b = tabs.get(f"traffic_light/task={v!r}")
+        if a is None or b is None:
+            continue
+        ra = [(x[1], x[2]) for x in a[1]]
+        rb = [(x[1], x[2]) for x in b[1]]
+        ctx.check(ra == rb, "C14-task-spelling", a[2].name, m,
+                  f"the traffic-light table selected for the task given as the string {v!r} differs from the one for EvaluationTask.{m}: LabelConverter hands its str-or-enum argument on, "
+                  f"so the table must be selected with a str-aware `==`, not with `is`", fi=a[2], expected=f"{len(ra)} rows as for the member", found=f"{len(rb)} rows, first difference {next((y for x, y in zip(ra, rb) if x != y), None)}")
     ctx.require(total_rows >= 300, f"only {total_rows} table rows extracted (hand-confirmed minimum 300 over 11 tables)")
     ctx.exhaustive = True
 
@@ -131,8 +146,7 @@ def rule_converter(ctx: Ctx) -> None:
         # the loop's match test
         loops = [e for p in paths for e in p.effects if e.kind == "loop"]
         ctx.require(bool(loops), f"{fname}: lookup loop not found")
-        body = loops[0].body or []
-        keys = {k for bp in body for k, _ in bp.conds}
+        keys = {k for lp in loops for bp in (lp.body or []) for k, _ in bp.conds}
         match = [k for k in keys if k.startswith("same:") and "name" in k]
         ctx.require(bool(match), f"{fname}: no name comparison recognised in the lookup loop (tests: {sorted(keys)})")
         for k in match:
